@@ -121,7 +121,7 @@ where C: FullDuplexUniChannel<ItemType = Tok, DerivedItemType = D> + Send + Sync
 
 // ------------------------------------------------------------------------------------------------ multi
 
-async fn multi_case<C, D>(pipelines: usize, limit: u32, execs: Vec<u8>, with_timeout: bool, events: Vec<u8>, cancel_after: usize, paused: bool, ledger: Arc<Ledger>) -> Vec<(String, String)>
+async fn multi_case<C, D>(pipelines: usize, limit: u32, execs: Vec<u8>, with_timeout: bool, events: Vec<u8>, cancel_after: usize, paused: bool, ledger: Arc<Ledger>, close_timeout_ms: u64) -> Vec<(String, String)>
 where C: FullDuplexMultiChannel<ItemType = Tok, DerivedItemType = D> + Send + Sync + 'static, D: EvId + Send + Sync + std::fmt::Debug + 'static {
     static SEQ: AtomicU64 = AtomicU64::new(0);
     let name = format!("rmv-c12-{}-{}", std::process::id(), SEQ.fetch_add(1, SeqCst));
@@ -129,7 +129,8 @@ where C: FullDuplexMultiChannel<ItemType = Tok, DerivedItemType = D> + Send + Sy
     let _ = std::fs::remove_file(format!("/tmp/{name}.mmap"));
     let cb = Arc::new(CbLog::default());
     let ne = events.len();
-    let ev = Arc::new(events.clone());
+    // (a close with a deadline is meant to run into it: the items take ten times as long)
+    let ev = Arc::new(if close_timeout_ms > 0 { events.iter().map(|e| e * 10).collect::<Vec<u8>>() } else { events.clone() });
     for pl in 0..pipelines {
         let (cb2, l2, l1, ev) = (cb.clone(), ledger.clone(), ledger.clone(), ev.clone());
         let who = format!("pipeline {pl}");
@@ -151,8 +152,10 @@ where C: FullDuplexMultiChannel<ItemType = Tok, DerivedItemType = D> + Send + Sy
         let mut tries = 0; loop { if multi.send(Tok::make(e)).is_ok() { break } tries += 1; if tries > 40 { break } tokio::time::sleep(Duration::from_millis(1)).await }
     }
     if cancel_after >= ne { let _ = multi.flush_and_cancel_executor("pipeline 0", Duration::ZERO).await; }
-    let _ = multi.close(Duration::ZERO).await;
-    for _ in 0..200 { if cb.calls.lock().unwrap().len() >= pipelines { break } tokio::time::sleep(Duration::from_millis(1)).await }
+    // a close whose deadline expires gives up waiting (and says so); the executors still end -- each with its one close callback, in an 'ended' state -- once their
+    // streams, told to end, have run dry
+    let closed = multi.close(Duration::from_millis(close_timeout_ms)).await;
+    for _ in 0..if close_timeout_ms > 0 { 4000 } else { 200 } { if cb.calls.lock().unwrap().len() >= pipelines { break } tokio::time::sleep(Duration::from_millis(1)).await }
     for _ in 0..20 { tokio::time::sleep(Duration::from_millis(1)).await }
     let calls = cb.calls.lock().unwrap().clone();
     for pl in 0..pipelines {
@@ -167,7 +170,8 @@ where C: FullDuplexMultiChannel<ItemType = Tok, DerivedItemType = D> + Send + Sy
     }
     // the pipelines that were not removed received everything, also what was sent after the removal
     let st = ledger.state.lock().unwrap().clone();
-    for pl in 1..pipelines { let missing = (0..ne).filter(|e| st[pl * ne + e] != 2).count(); if missing > 0 { p.push(("other_pipeline_disturbed".into(), format!("pipeline {pl}, which was not removed, did not process {missing} of the {ne} events"))) } }
+    if !closed && close_timeout_ms > 0 { p.push(("close_deadline_expired(not a problem)".into(), String::new())) }
+    else { for pl in 1..pipelines { let missing = (0..ne).filter(|e| st[pl * ne + e] != 2).count(); if missing > 0 { p.push(("other_pipeline_disturbed".into(), format!("pipeline {pl}, which was not removed, did not process {missing} of the {ne} events"))) } } }
     p
 }
 
@@ -269,15 +273,19 @@ fn others(args: &Args, acc: &mut Acc, seed: u64, verbose: bool) {
             let ex2 = execs.clone();
             let ledger = Ledger::new(events.len() * pipelines);
             let (ev, l) = (events.clone(), ledger.clone());
+            // 1 run in 4: the final close has a deadline of a few milliseconds
+            let ct = if rng.chance(1, 4) { 1 + rng.below(20) } else { 0 };
             let r = match kind {
-                "multi.arc.full_sync" => tk::run(rt, wd, move || multi_case::<ChannelMultiArcFullSync<Tok, N, 4>, Arc<Tok>>(pipelines, limit, ex2, with_timeout, ev, cancel_after, paused, l)),
-                "multi.arc.crossbeam" => tk::run(rt, wd, move || multi_case::<ChannelMultiArcCrossbeam<Tok, N, 4>, Arc<Tok>>(pipelines, limit, ex2, with_timeout, ev, cancel_after, paused, l)),
-                "multi.ogre_arc.atomic" => tk::run(rt, wd, move || multi_case::<ChannelMultiOgreArcAtomic<Tok, N, 4>, OgreArc<Tok, AllocatorAtomicArray<Tok, N>>>(pipelines, limit, ex2, with_timeout, ev, cancel_after, paused, l)),
-                _ => tk::run(rt, wd, move || multi_case::<ChannelMultiMmapLog<Tok, 4>, &'static Tok>(pipelines, limit, ex2, with_timeout, ev, cancel_after, paused, l)),
+                "multi.arc.full_sync" => tk::run(rt, wd, move || multi_case::<ChannelMultiArcFullSync<Tok, N, 4>, Arc<Tok>>(pipelines, limit, ex2, with_timeout, ev, cancel_after, paused, l, ct)),
+                "multi.arc.crossbeam" => tk::run(rt, wd, move || multi_case::<ChannelMultiArcCrossbeam<Tok, N, 4>, Arc<Tok>>(pipelines, limit, ex2, with_timeout, ev, cancel_after, paused, l, ct)),
+                "multi.ogre_arc.atomic" => tk::run(rt, wd, move || multi_case::<ChannelMultiOgreArcAtomic<Tok, N, 4>, OgreArc<Tok, AllocatorAtomicArray<Tok, N>>>(pipelines, limit, ex2, with_timeout, ev, cancel_after, paused, l, ct)),
+                _ => tk::run(rt, wd, move || multi_case::<ChannelMultiMmapLog<Tok, 4>, &'static Tok>(pipelines, limit, ex2, with_timeout, ev, cancel_after, paused, l, ct)),
             };
             acc.count("multi_runs", 1); for e in &execs { acc.count(&format!("multi_pipelines[executor: {}]", EXEC_NAMES[*e as usize]), 1) }
-            let cfg = J::obj().with("executors", J::s(format!("{:?}", execs.iter().map(|e| EXEC_NAMES[*e as usize]).collect::<Vec<_>>()))).with("futures_timeout_set", J::Bool(with_timeout)).with("channel", J::s(kind)).with("pipelines", J::i(pipelines as i64)).with("concurrency_limit", J::i(limit as i64)).with("runtime", J::s(rt.describe())).with("per_event_sleep", J::s(format!("{:?}", events))).with("pipeline_0_removed_before_event", J::i(cancel_after as i64));
-            match r { None => { acc.inconclusive += 1; acc.count("inconclusive_watchdog", 1) } Some(p) => { acc.nontrivial(mix(seed, 77)); acc.sample(2, || cfg.clone()); report(args, acc, seed, verbose, "multi", cfg, p) } }
+            let cfg = J::obj().with("executors", J::s(format!("{:?}", execs.iter().map(|e| EXEC_NAMES[*e as usize]).collect::<Vec<_>>()))).with("futures_timeout_set", J::Bool(with_timeout)).with("channel", J::s(kind)).with("pipelines", J::i(pipelines as i64)).with("concurrency_limit", J::i(limit as i64)).with("runtime", J::s(rt.describe())).with("per_event_sleep", J::s(format!("{:?}", events))).with("pipeline_0_removed_before_event", J::i(cancel_after as i64)).with("final_close_deadline_ms(0 = none)", J::i(ct as i64));
+            match r { None => { acc.inconclusive += 1; acc.count("inconclusive_watchdog", 1) } Some(mut p) => { acc.nontrivial(mix(seed, 77));
+                if ct > 0 { acc.count("multi_runs_closed_with_a_deadline", 1) }
+                let before = p.len(); p.retain(|x| !x.0.starts_with("close_deadline_expired")); if p.len() != before { acc.count("multi_runs_whose_close_deadline_expired_with_executors_still_busy", 1) } acc.sample(2, || cfg.clone()); report(args, acc, seed, verbose, "multi", cfg, p) } }
         }
         _ => {
             let sequential = rng.chance(2, 3);
